@@ -214,5 +214,60 @@ func init() {
 	register(&Family{Name: "c07-bitflips", Enumerated: true, Count: c07FlipCount, Gen: genC07Flip, New: newSc, Run: runC07, Policy: pol})
 	register(&Family{Name: "c07-random", Count: func(tier string) int { return map[string]int{"quick": 3000, "thorough": 100000}[tier] },
 		Gen: genC07Random, New: newSc, Run: runC07, Policy: pol})
-	plans["C07"] = []string{"c07-bitflips", "c07-random"}
+	// the authorisation half of the property, in W-srv (whole server):
+	// c07-authz: handshakes of database users in every standing (credit left /
+	// exhausted in one or both directions, expired, expiring during the run,
+	// cap 0) judged by the admission oracle of runC15 - only authorised users
+	// complete a handshake, everyone authorised and under the cap does;
+	// c07-unauth-peers: valid hellos under an unknown UID or unknown proxy
+	// method, damaged auth fields and replays, judged by the relay oracle of
+	// runC09 - the peer is relayed to the redirect target and nothing
+	// server-originated is written to it.
+	swarm := func(g *Gen) simsync.PolicyConfig {
+		p := SwarmPolicy(g)
+		p.Stall = 0
+		return p
+	}
+	register(&Family{Name: "c07-authz", Count: func(tier string) int { return map[string]int{"quick": 600, "thorough": 30000}[tier] },
+		Gen: genC07Authz, New: func() any { return &C15Scenario{} }, Run: runC15, VirtCap: 5 * time.Minute, Policy: swarm})
+	register(&Family{Name: "c07-unauth-peers", Count: func(tier string) int { return map[string]int{"quick": 400, "thorough": 20000}[tier] },
+		Gen: genC07UnauthPeers, New: func() any { return &C09Scenario{} }, Run: runC09, VirtCap: 5 * time.Minute, Policy: swarm})
+	plans["C07"] = []string{"c07-bitflips", "c07-random", "c07-authz", "c07-unauth-peers"}
+}
+
+func genC07Authz(g *Gen) any {
+	sc := &C15Scenario{Seed: g.Rng.Uint64(), Partial: g.Bool(0.3), SrvSkewMS: int64(g.Pick(0, 0, 7200000, -7200000))}
+	sc.BurstDelayS = g.Pick(0, 0, 0, 40, 100)
+	nu := g.Int(1, 2)
+	for u := 0; u < nu; u++ {
+		usr := C15User{Cap: g.Pick(1, 2, 4, 0), UpCredit: int64(g.Pick(1, 1000, 1e9)), DownCredit: int64(g.Pick(1, 1000, 1e9)), ExpiryS: 86400, Pinned: g.Bool(0.3)}
+		switch g.Int(0, 6) {
+		case 0:
+			usr.UpCredit = int64(g.Pick(0, -1, -1000))
+		case 1:
+			usr.DownCredit = int64(g.Pick(0, -1, -1000))
+		case 2:
+			usr.UpCredit, usr.DownCredit = int64(g.Pick(0, -1)), int64(g.Pick(0, -1))
+		case 3:
+			usr.ExpiryS = int64(g.Pick(-1, -3600, -86400))
+		case 4:
+			usr.ExpiryS = int64(g.Pick(5, 30, 50))
+		}
+		sc.Users = append(sc.Users, usr)
+	}
+	n := g.Int(1, 4)
+	for i := 0; i < n; i++ {
+		sc.Clients = append(sc.Clients, C15Client{User: g.Int(0, nu-1), Session: uint32(g.Pick(1, 2, 0x7fffffff)), Browser: []string{"chrome", "firefox", "safari"}[g.Rng.IntN(3)]})
+	}
+	return sc
+}
+
+func genC07UnauthPeers(g *Gen) any {
+	sc := &C09Scenario{Seed: g.Rng.Uint64(), Partial: g.Bool(0.5)}
+	kinds := []string{"cloak-unauth-uid", "cloak-bad-method", "cloak-unauth-uid", "cloak-bad-method", "cloak-mutated", "cloak-replay"}
+	n := g.Int(1, 2)
+	for i := 0; i < n; i++ {
+		sc.Peers = append(sc.Peers, genC09Peer(g, kinds[g.Rng.IntN(len(kinds))]))
+	}
+	return sc
 }
